@@ -280,11 +280,15 @@ PROPS["C17"] = {
         {"test": "^TestKnownOversizeHeadOfLine$", "timeout": 120},
         {"test": "^TestPacingInterceptor$", "checks": 40, "shards": 8, "timeout": 400},
         {"test": "^TestGCCPacers$", "checks": 40, "shards": 6, "timeout": 400},
+        {"test": "^TestPacingDeepBacklog$", "checks": 6, "shards": 2, "timeout": 400},
+        {"test": "^TestPacingSecondIncarnation$", "checks": 6, "shards": 2, "timeout": 400},
     ],
     "thorough": [
         {"test": "^TestKnownOversizeHeadOfLine$", "timeout": 120},
         {"test": "^TestPacingInterceptor$", "checks": 250, "shards": 9, "timeout": 1500},
         {"test": "^TestGCCPacers$", "checks": 250, "shards": 6, "timeout": 1500},
+        {"test": "^TestPacingDeepBacklog$", "checks": 60, "shards": 4, "timeout": 1500},
+        {"test": "^TestPacingSecondIncarnation$", "checks": 60, "shards": 4, "timeout": 1500},
     ],
 }
 
